@@ -107,10 +107,17 @@ func (e *Exec) binop(st *BState, op token.Token, x, y SV, t types.Type, rt types
 		return &Scalar{T: c, Ty: rt}
 	case *PtrV:
 		yv := y.(*PtrV)
-		if xv.Addr == nil || yv.Addr == nil {
+		var c *Term
+		switch {
+		case xv.LV != nil && isNilPtrConst(yv):
+			c = xv.nilCond()
+		case yv.LV != nil && isNilPtrConst(xv):
+			c = yv.nilCond()
+		case xv.Addr == nil || yv.Addr == nil:
 			panic("comparison of static pointers")
+		default:
+			c = eq(xv.Addr, yv.Addr)
 		}
-		c := eq(xv.Addr, yv.Addr)
 		if op == token.NEQ {
 			c = not(c)
 		}
@@ -241,7 +248,7 @@ func (e *Exec) execInstr(fr *Frame, b *ssa.BasicBlock, ins ssa.Instruction, st *
 	case *ssa.DebugRef:
 	case *ssa.Alloc:
 		et := x.Type().(*types.Pointer).Elem()
-		if !x.Heap {
+		if cellLike(x) {
 			st.cells[x] = zeroValue(et)
 			fr.regs[x] = &PtrV{Ty: x.Type(), LV: &LVal{Alloc: x}}
 		} else if at, ok := et.Underlying().(*types.Array); ok {
@@ -493,6 +500,8 @@ func retype(sv SV, t types.Type) SV {
 func (e *Exec) nilCheck(st *BState, p *PtrV, pos token.Pos) {
 	if p.LV == nil && p.Addr != nil {
 		e.oblige(st, "nopanic.nil", pos, not(eq(p.Addr, intLit(0))))
+	} else if p.LV != nil && p.Nil != nil && p.Nil != tFalse {
+		e.oblige(st, "nopanic.nil", pos, not(p.Nil))
 	}
 }
 
